@@ -134,7 +134,7 @@ def check_new(fb, chk, rule_prefix='C04'):
 
 
 def run(ctx, chk):
-    fb = ctx.facts('dev')
+    fb = ctx.facts()
     chk.explanation = ('T1: wipe() is reached only on the error edge of the usability probe; T2: nothing else reachable from '
                        'ShmWriter::new creates/truncates/unlinks the file and the mapping open has no O_CREAT/O_TRUNC; T3: new() stores '
                        'only a non-zero version constant into the mapping; T4: write() from any odd start keeps it and completes to '
